@@ -267,6 +267,30 @@ def definition_histories(ctx):
     ctx.count("accepted kernels of every kind defined again after each of eight refused / odd definitions", n2)
 
 
+def joined_constants(ctx):
+    """kernels of documented vocabulary whose grid operand is chosen by a run-time branch between CONSTANTS of one geometry (a zone, a filled
+    copy of it, a view of the filled copy): accepted by every kind that accepts the statement"""
+    uses = {"move": ["gate.top_hat_cz(z)", "gate.local_rz(0.5, z)", "measure.measure((z,))", "init.fill([z])", "r = filled.vacate(z, [(0, 1)])", "r = grid.shift(z, 1.0, 0.0)"],
+            "kernel": ["gate.top_hat_cz(z)", "gate.local_r(0.5, 0.25, z)", "r = filled.fill(z, [(0, 1)])", "r = grid.shape(z)"],
+            "tweezer": ["action.set_loc(z)", "r = filled.vacate(z, [(1, 1)])", "r = grid.sub_grid(z, [0], [0, 1])"]}
+    pairs = [("CONST_FILLED", "CONST_GRID"), ("CONST_GRID", "CONST_FILLED"), ("CONST_FULL", "CONST_GRID"), ("CONST_FILLED", "CONST_FULL")]
+    n = 0
+    for kind, stmts in uses.items():
+        for a, b in pairs:
+            for st in stmts:
+                src = f"@{kind}\ndef main(c: bool):\n    if c:\n        z = {a}\n    else:\n        z = {b}\n    {st}\n"
+                got, err = try_define(src)
+                ctx.evaluations += 1
+                n += 1
+                if got != "accepted":
+                    ctx.fail({"kind": kind, "got": "rejected", "documented": "accept", "form": "operand chosen by a branch between constants of one geometry", "stmt": st.split("(")[0]},
+                             {"src": src, "expected": "accepted"},
+                             f"@{kind} kernel applying {st} to a grid chosen by a branch between {a} and {b} was rejected ({err}); the documented vocabulary says accept")
+                else:
+                    ctx.nt(("joined-constants", kind, a, b, st))
+    ctx.count("kernels whose grid operand is a branch between constants of one geometry (zone / filled copy / completely filled copy)", n)
+
+
 def option_specs():
     """specs for the decorators' arch_spec= option; the literal name "traps" (what one_statement_kernels writes for a string attribute) is
     known under every lookup kind / only as a special grid and an int constant / only as a static trap and a float constant / not at all"""
@@ -495,6 +519,7 @@ def run(ctx):
     # ---- the decorators' arch_spec= option does not change the vocabulary ----
     arch_spec_option(ctx, ws, wcat)
     definition_histories(ctx)
+    joined_constants(ctx)
     # ---- the tracer's guard ----
     S = tweezer_prog.harness_spec()
     from bloqade.shuttle.codegen.taskgen import TraceInterpreter
